@@ -604,6 +604,106 @@ def r01_k(prog: Program, chk: Check) -> None:
     chk.ob("R01.k", "implementation::len_of_value::immutable containers keep their literal length", len(imprecise) < sum(1 for _, _, e in cases if e is not None), site, f"{len(imprecise)} immutable containers without a literal length (all of them: the function no longer answers at all)", witness=imprecise[:3])
 
 
+# ------------------------------------------------------------------- R01.l
+def r01_l(prog: Program, chk: Check) -> None:
+    from ..minterp import AssertionFailed, Interp, ModelError, Obj, PyRaise, Sym, Unsupported
+
+    chk.rule(
+        "R01.l",
+        "an update carried around a loop is not limited to the literals of the iterations that were visited, as a finite model: NameCheckVisitor.visit_AugAssign is interpreted "
+        "from its AST with the operator result stubbed (a literal int, a literal str, a union of literals, a typed value) for a name and for an attribute target, inside and "
+        "outside a loop (the function scope's current_loop_scopes, as FunctionScope.loop_scope maintains it): inside a loop the value written to a name contains every object of "
+        "the literal's type - the body is visited a fixed number of times, `i += 1` runs any number of times - and outside a loop the literal is kept",
+        floor=2,
+    )
+    ncv = prog.cls("NameCheckVisitor")
+    fn = ncv.methods.get("visit_AugAssign")
+    if fn is None:
+        raise AnchorError("NameCheckVisitor.visit_AugAssign not found")
+    fs = prog.cls("FunctionScope")
+    if not any(isinstance(n, ast.Attribute) and n.attr == "current_loop_scopes" for n in ast.walk(fs.node)):
+        raise AnchorError("FunctionScope has no current_loop_scopes: the model does not know how a loop is recognised")
+
+    def known(v):
+        return Obj("KnownValue", val=v)
+
+    def typed(t):
+        return Obj("TypedValue", typ=t)
+
+    def flatten(args, kwargs=None):
+        v = args[0]
+        return list(v._attrs["vals"]) if v._kind == "MultiValuedValue" else [v]
+
+    flatten.wants_kwargs = True  # type: ignore[attr-defined]
+
+    def unite(args, kwargs=None):
+        flat = []
+        for a in args:
+            for x in (a._attrs["vals"] if a._kind == "MultiValuedValue" else [a]):
+                key = (x._kind, repr(x._attrs.get("val", x._attrs.get("typ"))))
+                if key not in [(y._kind, repr(y._attrs.get("val", y._attrs.get("typ")))) for y in flat]:
+                    flat.append(x)
+        return flat[0] if len(flat) == 1 else Obj("MultiValuedValue", vals=tuple(flat))
+
+    unite.wants_kwargs = True  # type: ignore[attr-defined]
+
+    def hook(v, cls):
+        if cls in ("KnownValue", "TypedValue", "MultiValuedValue", "AnyValue"):
+            return isinstance(v, Obj) and v._kind == cls
+        return None
+
+    def covers(v, typ) -> bool:
+        """Does the value contain every object of `typ`?"""
+        return any(x._kind == "TypedValue" and issubclass(typ, x._attrs["typ"]) or x._kind == "AnyValue" for x in (v._attrs["vals"] if v._kind == "MultiValuedValue" else [v]))
+
+    results = [
+        ("Literal[1]", known(1), int), ("Literal['ab']", known("ab"), str), ("Literal[1, 2]", Obj("MultiValuedValue", vals=(known(1), known(2))), int),
+        ("Literal[1.5]", known(1.5), float), ("int", typed(int), int),
+    ]
+    narrow, lost, crashes = [], [], []
+    n = 0
+    for label, result, typ in results:
+        for target_src in ("i", "self.i"):
+            for in_loop in (True, False):
+                n += 1
+                node = ast.parse(f"{target_src} += 1").body[0]
+                assigned = []
+                scope = Obj("FunctionScope", current_loop_scopes=[{}] if in_loop else [])
+
+                def override(obj, attr, val, assigned=assigned):
+                    if attr == "being_assigned":
+                        assigned.append(val)
+                    return Obj("ContextManager", __enter__=lambda: None, __exit__=lambda exc=None: None)
+
+                self_obj = Obj(
+                    "NameCheckVisitor", composite_from_node=lambda nd: Obj("Composite", value=typed(int)), composite_from_name=lambda nd, force_read=False: Obj("Composite", value=typed(int)),
+                    _visit_binop_internal=lambda *a, result=result, **k: result, scopes=Obj("StackedScopes", current_scope=lambda scope=scope: scope),
+                    yield_checker=Obj("YieldChecker", check_yield_result_assignment=lambda y: Obj("ContextManager", __enter__=lambda: None, __exit__=lambda exc=None: None)),
+                    visit=lambda nd: None,
+                )
+                it = Interp({}, {}, (), {"Composite": lambda a: Obj("Composite", value=a[0]), "AnyValue": lambda a: Obj("AnyValue"), "KnownValue": lambda a: known(a[0]), "TypedValue": lambda a: typed(a[0]), "flatten_values": flatten, "unite_values": unite}, hook, {}, {}, {"ast": ast, "qcore": Obj("qcore", override=override), "AnySource": Obj("AnySource", inference=Sym("inference")), "__native_getattr__": True})
+                d = {"statement": f"{target_src} += 1", "operator result": label, "inside a loop": in_loop}
+                try:
+                    it.call_def(fn, [self_obj, node], fn)
+                except Unsupported as u:
+                    raise AnchorError(f"visit_AugAssign cannot be modelled: {u}")
+                except (AssertionFailed, PyRaise, ModelError) as e:
+                    crashes.append({**d, "error": str(e)})
+                    continue
+                if len(assigned) != 1:
+                    raise AnchorError(f"visit_AugAssign assigned {len(assigned)} values in the model")
+                v = assigned[0]
+                if in_loop and target_src == "i" and not covers(v, typ):
+                    narrow.append({**d, "assigned": "a value that does not contain every " + typ.__name__})
+                if not in_loop and result._kind != "TypedValue" and covers(v, typ):
+                    lost.append({**d, "assigned": typ.__name__})
+    chk.model_evaluations += n
+    site = prog.site("name_check_visitor", fn)
+    chk.ob("R01.l", "name_check_visitor::NameCheckVisitor.visit_AugAssign::a loop-carried update is widened to the type", not narrow, site, f"{n} cases, {len(narrow)} keep the literals of the visited iterations" + (f"; first: {narrow[0]}" if narrow else ""), witness=narrow[:4])
+    chk.ob("R01.l", "name_check_visitor::NameCheckVisitor.visit_AugAssign::outside a loop the literal is kept", not lost, site, f"{len(lost)} cases lose the literal" + (f"; first: {lost[0]}" if lost else ""), witness=lost[:4])
+    chk.ob("R01.l", "name_check_visitor::NameCheckVisitor.visit_AugAssign::no-crash", not crashes, site, f"{len(crashes)} crashes" + (f"; first: {crashes[0]}" if crashes else ""), witness=crashes[:3])
+
+
 def run(prog: Program, chk: Check) -> None:
     guard(chk, r01_a, prog, chk)
     guard(chk, r01_b, prog, chk)
@@ -613,3 +713,4 @@ def run(prog: Program, chk: Check) -> None:
     guard(chk, r01_i, prog, chk)
     guard(chk, r01_j, prog, chk)
     guard(chk, r01_k, prog, chk)
+    guard(chk, r01_l, prog, chk)
